@@ -121,6 +121,32 @@ func (pc *pCtx) p8Frames(only string) {
 			if only != "" && !strings.Contains(name, only) {
 				continue
 			}
+			// (c) a byte is not a character: a unicode.* classification applied to rune(b) of one byte of a byte slice
+			// treats every byte of a multi-byte character as a character of its own (the byte flavour of a text helper
+			// then disagrees with the string flavour on the same text)
+			nByte := 0
+			for _, b := range fn.Blocks {
+				for _, ins := range b.Instrs {
+					call, ok := ins.(*ssa.Call)
+					if !ok {
+						continue
+					}
+					f := call.Common().StaticCallee()
+					if f == nil || pkgPathOf(f) != "unicode" || len(call.Common().Args) == 0 {
+						continue
+					}
+					cv, ok := call.Common().Args[0].(*ssa.Convert)
+					if !ok {
+						continue
+					}
+					if bt, ok := cv.X.Type().Underlying().(*types.Basic); ok && bt.Kind() == types.Uint8 {
+						nByte++
+						pc.add([]string{"C18"}, fmt.Sprintf("P8/%s/unicode-call#%d-classifies-a-character-not-a-byte", name, nByte),
+							"a unicode classification is applied to a decoded character, never to rune(b) of a single byte of a byte slice", false,
+							fmt.Sprintf("unicode.%s(rune(<byte>)) at %s", f.Name(), pc.pos(ins.Pos())), pc.pos(ins.Pos()))
+					}
+				}
+			}
 			// (b) append into a slice derived from a parameter
 			nApp := 0
 			for _, b := range fn.Blocks {
